@@ -103,14 +103,27 @@ def run(sc, workdir):
              name + "_pd_type": rng.choice(["gaussian", "rectangle"])}
         pars.update(d)
         p_pars.update(d)
+    # the user may leave dispersity on radius_effective in every mode; it only applies in mode 0
+    # (for mode > 0 S must be evaluated at P's mean effective radius, monodisperse)
     s_extra = {}
-    if ermode == 0 and rng.random() < 0.5 and s_info.parameters["radius_effective"].polydisperse:
+    if rng.random() < 0.5 and s_info.parameters["radius_effective"].polydisperse:
         s_extra = {"radius_effective_pd": 0.125, "radius_effective_pd_n": 5}
         pars.update(s_extra)
     if dim == "2d":
         for p in p_info.parameters.call_parameters:
             if p.type == "orientation":
                 pars[p.name] = p_pars[p.name] = rng.choice([0.0, 30.0, 75.0])
+        # magnetic P (P's magnetic triples and the spin state travel at the end of the P@S vector)
+        m0 = [p.name for p in p_info.parameters.call_parameters if p.name.endswith("_M0")]
+        if m0 and rng.random() < 0.6:
+            mag = {"up_frac_i": rng.choice([0.0, 0.25]), "up_frac_f": rng.choice([0.0, 0.75]),
+                   "up_theta": rng.choice([90.0, 30.0]), "up_phi": rng.choice([0.0, 40.0])}
+            for nm in m0:
+                mag[nm] = rng.choice([1.0, 2.0, -1.5])
+                mag[nm[:-3] + "_mtheta"] = rng.choice([20.0, 60.0, 90.0])
+                mag[nm[:-3] + "_mphi"] = rng.choice([10.0, 80.0])
+            pars.update(mag)
+            p_pars.update(mag)
     cutoff = 0.0
     ev = {"tid": sc["tid"], "ev": "PS", "P": p_info.id, "S": s_info.id, "dim": dim,
           "ptab": tab(p_info), "stab": tab(s_info), "haveFq": bool(p_info.have_Fq), "nmodes": nmodes,
